@@ -3,6 +3,9 @@ import json, os, sys, time
 
 VERIF = os.path.dirname(os.path.dirname(os.path.abspath(__file__)))
 
+def evidence_dir():
+    return os.environ.get('VERIF_EVIDENCE_DIR') or os.path.join(VERIF, 'evidence')
+
 
 class Obligation:
     __slots__ = ('rule', 'key', 'what', 'status', 'detail', 'loc', 'witness')
@@ -75,7 +78,7 @@ class Reporter:
     def finish(self):
         viol = [o for o in self.obls if o.status == 'violation']
         known = [o for o in self.obls if o.status == 'known']
-        replay_dir = os.path.join(VERIF, 'evidence', 'replay')
+        replay_dir = os.path.join(evidence_dir(), 'replay')
         os.makedirs(replay_dir, exist_ok=True)
         # stale replay files of this property
         for fn in os.listdir(replay_dir):
@@ -140,7 +143,7 @@ class Reporter:
             'wall_s': round(time.time() - self.t0, 2),
             'violations': len(viol),
         }
-        with open(os.path.join(VERIF, 'evidence', self.prop + '.json'), 'w') as f:
+        with open(os.path.join(evidence_dir(), self.prop + '.json'), 'w') as f:
             json.dump(ev, f, indent=1)
         print('%s %s: %d obligations, %s; %d violation(s), %d known finding(s); %.1fs' % (
             self.prop, self.tier, n, ', '.join('%s=%d' % kv for kv in sorted(by_status.items())), len(viol), len(known), time.time() - self.t0))
